@@ -6,10 +6,14 @@
 (* to (def, symbols of is); later events are judged against that graph.     *)
 (*   defs.q       answers of every taxonomy query for one symbol            *)
 (*   defs.reflect reflection of a record: defs, fits, ^symbol filter        *)
+(* Beyond the listed property (reported under the id X13, never as C13):    *)
+(*   defs.index   the indexes built by Namespace::make                      *)
+(*   defs.assoc   associations (is / tagOn / tags / any), implementation    *)
+(*   defs.protos  children prototypes; the entity type of a record          *)
 (***************************************************************************)
 EXTENDS Defs, TraceBase
 
-VARIABLES l, nbad, db
+VARIABLES l, nbad, db, at
 
 SetOf(seq) == {seq[i] : i \in 1..Len(seq)}
 NoDup(seq) == \A i, j \in 1..Len(seq) : i # j => seq[i] # seq[j]
@@ -33,21 +37,52 @@ CheckReflect(d, e) ==
     \o Need(SetOf(e.fits) = {b \in SetOf(e.asked) : ReflectFits(d, e.rec, b)}, "C13", <<"Reflection::fits", e.fits>>)
     \o Need(SetOf(e.isa) = {b \in SetOf(e.asked) : ReflectFits(d, e.rec, b)}, "C13", <<"^symbol filter", e.isa>>)
 
-Check(d, e) == CASE e.op = "defs.q" -> CheckQuery(d, e)
-                 [] e.op = "defs.reflect" -> CheckReflect(d, e)
-                 [] e.op = "defs.panic" -> Need(FALSE, "C13", <<"namespace query panicked", e.what, e.msg>>)
+Named(seq) == {<<seq[i][1], SetOf(seq[i][2])>> : i \in 1..Len(seq)}
+CheckIndex(d, a, e) ==
+    Need(Named(e.choices) = {<<c, Sub(d, c)>> : c \in {x \in DOMAIN d : IsChoice(d, x)}}, "C13", <<"choices index">>)
+    \o Need(Named(e.subtypes) = {<<s, Sub(d, s)>> : s \in UNION {d[x] : x \in DOMAIN d}}, "C13", <<"subtypes index">>)
+    \o Need(SetOf(e.features) = {x \in DOMAIN d : IsFeature(x)} /\ NoDup(e.features), "X13", <<"features">>)
+    \o Need(SetOf(e.conjuncts) = {x \in DOMAIN d : IsConjunct(x)} /\ NoDup(e.conjuncts), "X13", <<"conjuncts">>)
+    \o Need(SetOf(e.libs) = Sub(d, N_("lib")), "X13", <<"libs">>)
+    \o Need(SetOf(e.feature_names) = FeatureNames(d) /\ NoDup(e.feature_names), "X13", <<"feature_names">>)
+    \o Need(SetOf(e.tag_on_names) = TagOnNames(a) /\ NoDup(e.tag_on_names), "X13", <<"tag_on_names">>)
+    \o Need(Named(e.tag_on_defs) = {<<x, TagOnDefs(d, a, x)>> : x \in {y \in DOMAIN a : N_("tagOn") \in a[y].listtags}},
+            "X13", <<"tag_on_defs">>)
+
+CheckAssoc(d, a, e) ==
+    LET s == e.sym  nm == StringOf(e.sym) IN
+    Need(SetOf(e.is) = Associations(d, a, s, N_("is")), "X13", <<"is", nm>>)
+    \o Need(SetOf(e.tag_on) = Associations(d, a, s, N_("tagOn")), "X13", <<"tag_on", nm>>)
+    \o Need(SetOf(e.tags) = Associations(d, a, s, N_("tags")) /\ NoDup(e.tags), "X13", <<"tags", nm>>)
+    \o Need(\A i \in 1..Len(e.by) : SetOf(e.by[i][2]) = Associations(d, a, s, e.by[i][1]), "X13",
+            <<"associations", nm, {StringOf(e.by[i][1]) : i \in {j \in 1..Len(e.by) : SetOf(e.by[j][2]) # Associations(d, a, s, e.by[j][1])}}>>)
+    \o Need(SetOf(e.impl) = Implementation(d, a, s), "X13", <<"implementation", nm>>)
+    \o Need(e.fits_marker = Fits(d, s, N_("marker")) /\ e.fits_val = Fits(d, s, N_("val"))
+            /\ e.fits_choice = Fits(d, s, N_("choice")) /\ e.fits_entity = Fits(d, s, N_("entity")), "C13", <<"fits_marker/val/choice/entity", nm>>)
+
+CheckProtos(d, a, e) ==
+    Need(ProtosOk(d, a, e.rec, e.protos) /\ NoDup(e.protos), "X13", <<"protos", e.protos>>)
+    \o Need(EntityOk(d, e.rec, e.entity), "X13", <<"entity type", StringOf(e.entity)>>)
+
+Check(d, a, e) == CASE e.op = "defs.q" -> CheckQuery(d, e)
+                 [] e.op = "defs.reflect" -> CheckReflect(d, e) \o Need(EntityOk(d, e.rec, e.entity), "X13", <<"entity type", StringOf(e.entity)>>)
+                 [] e.op = "defs.index" -> CheckIndex(d, a, e)
+                 [] e.op = "defs.assoc" -> CheckAssoc(d, a, e)
+                 [] e.op = "defs.protos" -> CheckProtos(d, a, e)
+                 [] e.op = "defs.panic" -> Need(FALSE, IF e.what \in {"query", "reflect"} THEN "C13" ELSE "X13", <<"namespace query panicked", e.what, e.msg>>)
                  [] e.op = "defs.load" -> Need(Acyclic(DbOf(e.rows)), "SPEC", <<"harness produced a cyclic taxonomy">>)
                  [] OTHER -> <<<<"SPEC", <<"unknown op", e.op>>>>>>
 
-Init == l = 1 /\ nbad = 0 /\ db = <<>>
+Init == l = 1 /\ nbad = 0 /\ db = <<>> /\ at = <<>>
 Next == \/ /\ l <= Len(Rec)
            /\ LET e == Rec[l]
-                  r == Check(db, e)
+                  r == Check(db, at, e)
               IN /\ Report(e.i, r, 1) /\ nbad' = nbad + Len(r)
                  /\ db' = IF e.op = "defs.load" THEN DbOf(e.rows) ELSE db
+                 /\ at' = IF e.op = "defs.load" THEN AtOf(e.attrs) ELSE at
            /\ l' = l + 1
         \/ /\ l = Len(Rec) + 1
            /\ PrintT("CONSUMED " \o ToString(Len(Rec)) \o " " \o ToString(nbad))
-           /\ l' = l + 1 /\ UNCHANGED <<nbad, db>>
-Spec == Init /\ [][Next]_<<l, nbad, db>>
+           /\ l' = l + 1 /\ UNCHANGED <<nbad, db, at>>
+Spec == Init /\ [][Next]_<<l, nbad, db, at>>
 =============================================================================
